@@ -12,7 +12,7 @@ out = []
 out.append("| seeded change | breaks | needs, in order to manifest | caught by (quick tier) |")
 out.append("|---|---|---|---|")
 def key(n):
-    return (n.startswith("own/"), n[0] in "RSTU", n)
+    return (n.startswith("own/"), n[0] in "RSTUVWXYZ", n)
 for name in sorted(rows, key=key):
     caught, err, note = rows[name]
     meta_path = os.path.join(root, "seeded", name, "meta.json")
